@@ -354,6 +354,21 @@ class TheJoker:
 
         if in_memory:
             if isinstance(prior_samples, JokerSamples):
+                if max_prior_samples is not None or randomize_prior_order:
+                    # Same semantics (and same random draws) as the file path:
+                    # never process more than max_prior_samples of the library
+                    n_total_samples = len(prior_samples)
+                    if max_prior_samples is None:
+                        max_prior_samples = n_total_samples
+
+                    if randomize_prior_order:
+                        idx = self.rng.choice(
+                            n_total_samples, size=max_prior_samples, replace=False
+                        )
+                        prior_samples = prior_samples[idx]
+                    elif max_prior_samples < n_total_samples:
+                        prior_samples = prior_samples[:max_prior_samples]
+
                 ln_prior = None
                 if return_logprobs:
                     ln_prior = prior_samples["ln_prior"]
